@@ -39,7 +39,7 @@ def run(ctx):
     W = 4 if q else 8
     # ------------------------------------------------------------------ 1. model checks of the specifications
     r = lib.tlc("MC_Subsets", cfg="MC_Subsets" if q else "MC_Subsets_thorough", workers=W, timeout=1500, heap="6g")
-    ctx.mc_must_pass(r, "Subsets T1-T5, every configuration x number of subsets (%s)" % ("views<=24" if q else "views<=96"), "MC_Subsets")
+    ctx.mc_must_pass(r, "Subsets T1-T5, every configuration x number of subsets (%s)" % ("views<=32" if q else "views<=96"), "MC_Subsets")
     r = lib.tlc("MC_IterSchedule", cfg="MC_IterSchedule" if q else "MC_IterSchedule_thorough", workers=W, timeout=1500, heap="6g", coverage=True)
     ctx.mc_must_pass(r, "IterSchedule: once per full iteration, all schedules (%s)" % ("N<=4" if q else "N<=5"), "MC_IterSchedule")
     if "NextSubiter" not in r.coverage or r.coverage["NextSubiter"][0] == 0:
@@ -62,7 +62,10 @@ def run(ctx):
         lib.run_driver(exe, ["proj", t2, 0 if q else 1], env=env, timeout=1200)
         t3 = os.path.join(ctx.work, "sched.ndjson")
         lib.run_driver(exe, ["sched", t3, 4 if q else 6, 3 if q else 4, 0 if q else 1], env=env, timeout=1200)
-        jobs += [("Trace_Subsets", t1), ("Trace_Subsets", t2), ("Trace_IterSchedule", t3)]
+        t4 = os.path.join(ctx.work, "recon.ndjson")
+        t5 = os.path.join(ctx.work, "reconsched.ndjson")
+        lib.run_driver(exe, ["recon", t4, t5, 0 if q else 1], env=env, timeout=1200)
+        jobs += [("Trace_Subsets", t1), ("Trace_Subsets", t2), ("Trace_IterSchedule", t3), ("Trace_Subsets", t4), ("Trace_IterSchedule", t5)]
     # ------------------------------------------------------------------ 3. validate
     nconf = nrun = nsub = 0
     for module, t in jobs:
@@ -134,7 +137,7 @@ def run(ctx):
     # ------------------------------------------------------------------ 4. vacuity guards on recorded traces
     if not ctx.replay:
         sub_chunk = os.path.join(ctx.work, "chunks", "subsets.001.ndjson")
-        head = _first_lines(sub_chunk, lambda l: '"e":"Config"' in l, 60)[:-1]
+        head = _first_lines(sub_chunk, lambda l: '"e":"Config"' in l, 400)[:-1]
         small = os.path.join(ctx.work, "guard-src.ndjson")
         open(small, "w").writelines(head)
 
@@ -153,7 +156,7 @@ def run(ctx):
             return False
         _corrupt_guard(ctx, "Trace_Subsets", small, drop_view, "one view/segment removed from a subset")
         _corrupt_guard(ctx, "Trace_Subsets", small, flip_bal, "the balance verdict inverted")
-        sched = [x for x in jobs if x[0] == "Trace_IterSchedule"][0][1]
+        sched = t3
         shead = os.path.join(ctx.work, "guard-sched.ndjson")
         open(shead, "w").writelines(open(sched).readlines()[:200])
 
